@@ -183,7 +183,7 @@ func (e *Engine) verifyFunc(bc *BoundContract) (res *FuncResult) {
 			for _, sc := range bc.C.Sets {
 				applyGhostSet(cx, &SpecEnv{cx: cx, pkg: pkg, vars: rv, cur: r.st, old: entry}, sc, r.st)
 			}
-			renvs = append(renvs, retEnv{reach: r.reach, vars: rv, env: &SpecEnv{cx: cx, pkg: pkg, vars: rv, cur: r.st, old: entry, rets: fr.lastRets, retNames: fr.lastRetNames, called: fr.lastCalled}})
+			renvs = append(renvs, retEnv{reach: r.reach, vars: rv, env: &SpecEnv{cx: cx, pkg: pkg, vars: rv, cur: r.st, old: entry, iter: r.iterSt, rets: fr.lastRets, retNames: fr.lastRetNames, called: fr.lastCalled}})
 		}
 		for i, en := range bc.C.Ensures {
 			if en.Assumed {
